@@ -118,3 +118,35 @@ MANIFEST_TEXT["C06"] = dict(
          "doubled separators); each result must equal an independent reference fold and all cuts must agree (cut-invariance). " + EXPL,
     design_ref="DESIGN.md sections 3 and 4/C06", note=MODEL_NOTE,
     technique="property-based testing (rapidcheck): reference fold + metamorphic cut-invariance, under ASan/UBSan")
+
+HARNESSES["split"] = dict(cfg="asan", sources=["harness/split.cpp"], lib_only=["/appl/arg_string_2_array"])
+PROPS["C07"] = dict(
+    units=[
+        dict(harness="split", mode="roundtrip", kind="enum", quick=dict(), thorough=dict()),
+        dict(harness="split", mode="roundtrip", quick=dict(cases=40000), thorough=dict(cases=400000, shards=8)),
+        dict(harness="argh", mode="sources", quick=dict(cases=15000), thorough=dict(cases=120000, shards=16)),
+    ],
+    rule="(a) word lists of 1..8 non-empty words over printable ASCII incl. blanks, both quote characters and backslashes, each "
+         "word written as 1..3 segments in one of 4 quoting styles (backslash before specials, backslash before every character, "
+         "single quotes, double quotes), 1..3 separating blanks, leading/trailing blanks, all three constructors; exhaustive part: "
+         "every word of length 1..3 over {a, blank, ', \", \\} in each style, alone and between two words. Oracle: argc, every "
+         "argv[i] byte for byte, argv[argc]==nullptr. (b) rule-obeying abstract lines of rule-rich configurations whose uses are "
+         "split over program-argument file / environment variable / argv in the documented evaluation order (file lines with "
+         "several words, comment and empty lines, three quoting styles; both file mechanisms hfReadProgArg and addArgumentFile; "
+         "both environment mechanisms; program names with and without path). Oracle: destinations == same words on argv == model; "
+         "plus a scalar given in file/env and again on argv is accepted and ends with the argv value. Non-trivial = (a) a word "
+         "contains a blank, quote or backslash, (b) >= 1 use from a non-argv source and >= 1 from argv; distinct by case hash.",
+    require_classes=dict(all=["style.backslash", "style.single", "style.double", "style.backslash_all", "mixed_segments",
+                              "source.arg_file", "source.prog_arg_file", "source.env_default_name", "source.env_named",
+                              "source.file_comment_line", "source.override"]),
+    assumptions=DOMAIN_ASSUMPTIONS + [
+        "'escaping' means the splitter's own documented rules (a backslash protects the next character everywhere, also inside quotes), not POSIX shell quoting",
+        "empty words are out of domain (an empty quoted run produces no word; the property says non-empty words)",
+        "every file line is newline terminated; all words of one use stay on one file line; words starting with '#' are not generated"],
+)
+MANIFEST_TEXT["C07"] = dict(
+    text="(a) round trip: escaping and joining generated word lists, then splitting, must give the words back (bounded exhaustive + generated); "
+         "(b) differential: the same generated valid line delivered partly through an argument file and/or an environment variable must "
+         "produce the destination values of the all-on-argv evaluation and of the model, and file/env values can be overridden on argv. " + EXPL,
+    design_ref="DESIGN.md section 4/C07", note=MODEL_NOTE + " File and environment are real (per-process scratch HOME directory, setenv).",
+    technique="property-based testing (rapidcheck): round-trip + differential (source equivalence) + reference model, bounded exhaustive enumeration for the splitter, under ASan/UBSan")
